@@ -215,6 +215,19 @@ CLAIMED["C16"] = dict(
          "Model/Metrics.v, translator facts, extraction + driver, doors verif::session / verif::metrics",
     design="DESIGN.md 5 C16")
 
+CLAIMED["C19"] = dict(
+    text="Coq theorems on the model of shutdown.rs (Model/ShutdownM.v) for every interleaving: in every reachable state a submission "
+         "reaches every registered participant that has not wound down (observed at once if waiting, pending otherwise); a pending "
+         "notification survives whatever others do and is delivered when its owner waits; waiting for completion returns exactly when it "
+         "was started and every participant holding a guard has finished (never earlier, nothing more needed); a participant is awaited "
+         "iff it registered before completion began. Tied by translator facts (channel construction, submit/completion/guard/wait shapes, "
+         "every listener/tunnel/handler registers both halves under one lock and winds down gracefully) and by scripted interleavings on "
+         "the real Shutdown with the coordinator holding the lock as main.rs does",
+    note="partial: the codecs' graceful wind-down effects (GOAWAY, QUIC close) are structural facts only; known finding "
+         "completion-awaited-under-the-lock; trusted: Coq kernel, Model/ShutdownM.v, translator facts, tokio channels, extraction + "
+         "driver, harness door verif::shutdown",
+    design="DESIGN.md 5 C19")
+
 PENDING_REASON = "check under construction in this round (designed in DESIGN.md, not yet wired into ./check)"
 
 
